@@ -413,6 +413,30 @@ def shrink_step(ck):
                                 rep.unk('R1', label, 'fragment too small or construct outside the domain: %s' % e)
 
 
+def past_test(it, fn, args, header, ro, pp, pl, conc=None):
+    """paths arriving at the loop header -> [(kind, state, parent, side)].  A header that only tests the loop variables (while form)
+    is passed through: the path either leaves the function ('return') or enters the body ('continue'); a header that already does
+    the work of the step (do-while form) is an arrival in itself."""
+    _, body, _ = [l for l in fn.loops() if l[0] is header][0]
+    pure = all(i.op in ('phi', 'icmp', 'br') for i in header.instrs) and len(header.succs) == 2 and any(b not in body for b in header.succs)
+    inside = [b for b in header.succs if b in body]
+    outs = []
+    for s_, blk, prev in ro:
+        if pure and inside:
+            env = dict(s_.env)
+            for ph in header.instrs:
+                if ph.op == 'phi':
+                    env[ph.res] = it.val(ph.ops[ph.x['labels'].index(prev.name)], s_, fn)
+            ro2, rets2 = it.run_region(fn, args, header, env, inside, st=s_, prev=prev)
+            outs += [('return', s2, None, None) for s2, r in rets2]
+            for s2, b2, p2 in ro2:
+                outs.append(('continue', s2, s2.env[pp.res], s2.env[pl.res]))
+        else:
+            outs.append(('continue', s_, it.val(pp.ops[pp.x['labels'].index(prev.name)], s_, fn),
+                         it.val(pl.ops[pl.x['labels'].index(prev.name)], s_, fn)))
+    return outs
+
+
 def shrink_case(ck, fn, header, pp, pl, pos, s, built, label):
     rep = ck.rep
     fr, old = built
@@ -423,11 +447,7 @@ def shrink_case(ck, fn, header, pp, pl, pos, s, built, label):
     args = [Ptr('ROOT', 0), Ptr('Xgone', 0)]
     env0 = {pp.res: Ptr('P', 0), pl.res: dom.int_const(1 if s == 'l' else 0, 32)}
     ro, rets = it.run_region(fn, args, header, env0, [header], st=st)
-    outs = [('return', s_, None, None) for s_, r in rets]
-    for s_, blk, prev in ro:
-        np_ = it.val(pp.ops[pp.x['labels'].index(prev.name)], s_, fn)
-        nl = it.val(pl.ops[pl.x['labels'].index(prev.name)], s_, fn)
-        outs.append(('continue', s_, np_, nl))
+    outs = [('return', s_, None, None) for s_, r in rets] + past_test(it, fn, args, header, ro, pp, pl)
     if not outs:
         rep.unk('R1', label, 'no path through the iteration')
         return
@@ -473,9 +493,8 @@ def run_entry(ck, fn, fr, header, pp, pl, xnode='X'):
     st = fr.state()
     ro, rets = it.run_region(fn, [Ptr('ROOT', 0), Ptr(xnode, 0)], fn.entry, {}, [header], st=st)
     outs = [('return', s_, None, None) for s_, r in rets]
-    for s_, blk, prev in ro:
-        outs.append(('continue', s_, it.val(pp.ops[pp.x['labels'].index(prev.name)], s_, fn),
-                     dom.concrete(it.val(pl.ops[pl.x['labels'].index(prev.name)], s_, fn))))
+    for kind, s_, np_, nl in past_test(it, fn, [Ptr('ROOT', 0), Ptr(xnode, 0)], header, ro, pp, pl):
+        outs.append((kind, s_, np_, dom.concrete(nl) if kind == 'continue' else None))
     return outs
 
 
